@@ -489,7 +489,7 @@ def schema_probes(decls, probes):
         if d["kind"] == "impl":
             for sb in d["signals"]:
                 if names[sb["name"]] >= 2:
-                    probes["same_field_name_in_two_structs_with_block", "sibling_named_like_array_element"] += 1
+                    probes["same_field_name_in_two_structs_with_block"] += 1
 
 
 def mk_violation(v, decls, ops, run=None):
